@@ -7,6 +7,8 @@ U5 == { Std(17, 3, <<4>>, <<1>>), Std(3, 1, <<1>>, <<1>>), Std(1, 1, <<>>, <<>>)
         Oem(128, <<171, 2, 0>>, 1, <<1, 2>>, <<1, 2>>), Std(8, 2, <<2, 3>>, <<1>>) }
 CorrAll == {"none", "trailing", "trunc1", "trunc2", "oemtrunc", "badauth"}
 CorrNone == {"none"}
+\* list indices at which the BMC refuses once during the first discovery (-1: never)
+RefusalsDef == {-1, 0, 1}
 \* selection is a pure function: checked exhaustively over preference lists and advertised sets
 SelU == {<<3, 4, 1>>, <<1, 1, 1>>, <<2, 2, 1>>, <<1, 0, 0>>, <<1, 2, 1>>}
 RECURSIVE Inj(_, _)
